@@ -281,3 +281,156 @@ Section SplitFull.
       exact Hc.
   Qed.
 End SplitFull.
+
+(* ---------- split_covers_exactly (stream mode) ---------- *)
+Section StreamSplit.
+  Variable bs : N.
+  Hypothesis bs_pos : 0 < bs.
+
+  Lemma block_count_pos : forall n, 0 < n -> block_count bs n = chunk_count bs n.
+  Proof.
+    intros n Hn. unfold block_count, chunk_count.
+    replace (n + bs - 1) with ((n - 1) + 1 * bs) by lia.
+    rewrite N.div_add by lia. reflexivity.
+  Qed.
+
+  (* the blocks of a payload of n bytes partition [0, n) in order: n = 0 gives no block,
+     n = k*bs gives k full blocks, otherwise the last block has n mod bs bytes *)
+  Lemma block_ranges_partition : forall n, covers 0 (block_ranges bs n) n.
+  Proof.
+    intro n. destruct (N.eq_dec n 0) as [E|E].
+    - subst n. unfold block_ranges, block_count. replace ((0 + bs - 1) / bs) with 0.
+      + simpl. reflexivity.
+      + symmetry. apply N.div_small. lia.
+    - assert (Hn : 0 < n) by lia.
+      pose (msg := mkSSMsg 0 0 0 0 0 0 [] 0 [] false).
+      destruct (split_file_partition bs bs_pos msg [] n 0 None Hn) as [C _].
+      replace (block_ranges bs n) with (map (range bs) (split_file bs msg [] n 0 None)); [exact C|].
+      unfold block_ranges, split_file. rewrite block_count_pos by exact Hn. rewrite map_map.
+      apply map_ext_in. intros i Hi. apply In_nseq in Hi. unfold range. simpl.
+      destruct (i =? chunk_count bs n - 1) eqn:Ei; auto.
+      apply N.eqb_eq in Ei. rewrite Ei. reflexivity.
+  Qed.
+
+  Lemma block_ranges_sizes : forall n,
+      nlen (block_ranges bs n) = block_count bs n /\
+      Forall (fun r => 1 <= snd r <= bs) (block_ranges bs n) /\
+      (n mod bs = 0 -> Forall (fun r => snd r = bs) (block_ranges bs n)).
+  Proof.
+    intro n. unfold block_ranges. split; [|split].
+    - unfold nlen. rewrite map_length. fold (nlen (nseq (block_count bs n))). apply nlen_nseq.
+    - apply Forall_forall. intros r Hr. apply in_map_iff in Hr. destruct Hr as [i [Hr Hi]]. subst r. simpl.
+      apply In_nseq in Hi. unfold block_count in *.
+      destruct (i =? (n + bs - 1) / bs - 1) eqn:E; [|lia].
+      apply N.eqb_eq in E.
+      pose proof (N.div_mod (n + bs - 1) bs ltac:(lia)) as H1.
+      pose proof (N.mod_lt (n + bs - 1) bs ltac:(lia)) as H2.
+      remember ((n + bs - 1) / bs) as q. remember ((n + bs - 1) mod bs) as r.
+      assert (Hq : i + 1 = q) by lia. subst i.
+      assert (Hb : (q - 1) * bs + bs = bs * q) by nia.
+      lia.
+    - intro Hm. apply Forall_forall. intros r Hr. apply in_map_iff in Hr. destruct Hr as [i [Hr Hi]]. subst r. simpl.
+      apply In_nseq in Hi. unfold block_count in *.
+      destruct (i =? (n + bs - 1) / bs - 1) eqn:E; auto.
+      apply N.eqb_eq in E.
+      pose proof (N.div_mod n bs ltac:(lia)) as H0. rewrite Hm in H0.
+      pose proof (N.div_mod (n + bs - 1) bs ltac:(lia)) as H1.
+      pose proof (N.mod_lt (n + bs - 1) bs ltac:(lia)) as H2.
+      remember ((n + bs - 1) / bs) as q. remember ((n + bs - 1) mod bs) as r. remember (n / bs) as k.
+      assert (Hq : i + 1 = q) by lia. subst i.
+      assert (Hb : (q - 1) * bs + bs = bs * q) by nia.
+      assert (Hk : q = k) by nia.
+      nia.
+  Qed.
+End StreamSplit.
+
+(* ---------- what a sender's chunk sequence looks like to the receiver ---------- *)
+From DB Require Import Proofs.Chunks.
+
+Lemma aset_aset : forall (A : Type) (k : bytes) (a b : A) l,
+    aset bytes_eqb k a (aset bytes_eqb k b l) = aset bytes_eqb k a l.
+Proof.
+  induction l as [|[k1 a1] l IH]; simpl.
+  - rewrite bytes_eqb_refl. reflexivity.
+  - destruct (bytes_eqb k k1) eqn:E; simpl.
+    + rewrite bytes_eqb_refl. reflexivity.
+    + rewrite E. rewrite IH. reflexivity.
+Qed.
+
+Section StreamShape.
+  Variable D : Type.
+  Variable dempty : D.
+  Variable dapp : D -> D -> D.
+  Variable dlen : D -> N.
+  Variable msg : ssmsg.
+  Variable did : N.
+  Notation chunk := (chunk D).
+  Notation sfrom := (stream_chunks_from D dempty dlen msg did).
+  Let m0 := stream_meta msg did 0 0 0.
+
+  Lemma stream_same : forall datas i, same_stream D did m0 (sfrom i datas).
+  Proof.
+    induction datas as [|d r IH]; intro i; simpl; constructor; try apply IH; try constructor;
+      simpl; repeat split; reflexivity.
+  Qed.
+
+  Lemma stream_ids : forall datas i, ids_from D i (sfrom i datas).
+  Proof. induction datas as [|d r IH]; intro i; simpl; split; auto. Qed.
+
+  Lemma stream_last_only : forall datas i, last_only D (sfrom i datas).
+  Proof.
+    induction datas as [|d r IH]; intro i.
+    - reflexivity.
+    - change (sfrom i (d :: r)) with ((stream_meta msg did i 0 (dlen d), d) :: sfrom (i + 1) r).
+      specialize (IH (i + 1)).
+      destruct (sfrom (i + 1) r) eqn:E; [destruct IH|].
+      split; [|exact IH]. unfold is_last. simpl.
+      replace (0 =? last_chunk_count) with false by reflexivity.
+      destruct (0 =? i + 1) eqn:E1; auto. apply N.eqb_eq in E1. lia.
+  Qed.
+
+  Lemma stream_data : forall datas i,
+      map snd (sfrom i datas) = datas ++ [dempty] /\
+      Forall (fun c : chunk => c_fcid (fst c) = c_id (fst c) /\ c_hasfi (fst c) = false /\
+                               c_path (fst c) = m_path msg /\ c_size (fst c) = dlen (snd c) \/ snd c = dempty)
+             (sfrom i datas).
+  Proof.
+    induction datas as [|d r IH]; intro i; simpl.
+    - split; [reflexivity|]. constructor; [right; reflexivity|constructor].
+    - destruct (IH (i + 1)) as [A B]. split; [rewrite A; reflexivity|].
+      constructor; [left; simpl; auto|exact B].
+  Qed.
+
+  (* what the stream's chunks write: one file, the concatenation of the chunk data *)
+  Lemma stream_replay_from : forall datas i files old,
+      i <> 0 -> bad_name (path_base (m_path msg)) = false ->
+      alookup bytes_eqb (path_base (m_path msg)) files = Some old ->
+      replay D dapp files (sfrom i datas) =
+      Some (fset (path_base (m_path msg)) (fold_left dapp (datas ++ [dempty]) old) files).
+  Proof.
+    induction datas as [|d r IH]; intros i files old Hi Hb Hl.
+    - simpl. rewrite Hb. apply N.eqb_neq in Hi. rewrite Hi. rewrite Hl. reflexivity.
+    - change (sfrom i (d :: r)) with ((stream_meta msg did i 0 (dlen d), d) :: sfrom (i + 1) r).
+      simpl replay. rewrite Hb. apply N.eqb_neq in Hi. rewrite Hi. rewrite Hl.
+      rewrite (IH (i + 1) _ (dapp old d)).
+      + unfold fset. rewrite aset_aset. reflexivity.
+      + lia.
+      + exact Hb.
+      + unfold fset. apply alookup_aset_same. exact bytes_eqb_eq.
+  Qed.
+
+  Lemma stream_replay : forall d0 r,
+      bad_name (path_base (m_path msg)) = false ->
+      replay D dapp [] (stream_chunks D dempty dlen msg did (d0 :: r)) =
+      Some [(path_base (m_path msg), fold_left dapp (r ++ [dempty]) d0)].
+  Proof.
+    intros d0 r Hb. unfold stream_chunks.
+    change (sfrom 0 (d0 :: r)) with ((stream_meta msg did 0 0 (dlen d0), d0) :: sfrom (0 + 1) r).
+    simpl replay. rewrite Hb.
+    rewrite (stream_replay_from r (0 + 1) _ d0).
+    - unfold fset. simpl. rewrite bytes_eqb_refl. reflexivity.
+    - lia.
+    - exact Hb.
+    - unfold fset. simpl. rewrite bytes_eqb_refl. reflexivity.
+  Qed.
+End StreamShape.
